@@ -42,6 +42,10 @@ func Window(win string) (int64, int64) {
 		return BaseTime - 1000, BaseTime - 1
 	case "early":
 		return BaseTime + 5000, BaseTime + 6000
+	case "until2": // ends exactly at abstract transaction time 2
+		return BaseTime - 100, BaseTime + 2
+	case "from2": // begins exactly at abstract transaction time 2
+		return BaseTime + 2, BaseTime + 1000
 	}
 	return 0, 0
 }
